@@ -188,6 +188,26 @@ def one(ctx, payload, label):
             ctx.violation("repr-roundtrip-differs", f"{label} (labelmsm=2): eval(repr(m)).payload differs", params)
             return
         ctx.hit("repr_checked_labelmsm2")
+        # a copy of a message (copy / deepcopy / pickle round trip), where one can be made, carries the same
+        # attribute values and text as the message it was made from and as a parse of its own serialisation
+        import copy as _copy
+        import pickle as _pickle
+
+        for src_m, lm in ((mo, 2), (m, None)):
+            how = zlib.crc32(payload[::-1]) % 3
+            try:
+                clone = (_copy.copy, _copy.deepcopy, lambda x: _pickle.loads(_pickle.dumps(x)))[how](src_m)
+            except Exception:
+                ctx.hit("copy_not_supported")
+                continue
+            pub = lambda o: {k: v for k, v in vars(o).items() if not k.startswith("_")}  # noqa: E731
+            ctx.hit("copy_checked")
+            if pub(clone) != pub(src_m) or str(clone) != str(src_m) or clone.serialize() != src_m.serialize():
+                diff = sorted(k for k in set(pub(clone)) | set(pub(src_m)) if pub(clone).get(k) != pub(src_m).get(k))
+                ctx.violation("copy-differs", f"{label}" + (f" (labelmsm={lm})" if lm else "") + ": a "
+                              f"{('copy.copy', 'copy.deepcopy', 'pickle')[how]} of the message differs from it in "
+                              f"{diff[:4] or 'text / serialisation'}", params)
+                return
     if monitors.RECORDED:
         kind, desc = monitors.RECORDED[0]
         del monitors.RECORDED[:]
